@@ -12,7 +12,7 @@ From ZV.Gen Require Import Gen_C03.
 Import ListNotations.
 Local Open Scope N_scope.
 
-Definition entry := (N * N)%type.                 (* dictID, handle (which ZSTD_DDict* it is) *)
+Notation entry := (N * N)%type (only parsing).                 (* dictID, handle (which ZSTD_DDict* it is) *)
 
 (* bounds-checked table access (local copies: this model does not depend on the codec's list helpers) *)
 Fixpoint tget {A} (l : list A) (i : nat) : option A :=
@@ -44,9 +44,7 @@ Definition next_prefix (mask idx : N) : N := N.land idx mask + 1.
 
 Inductive probe_res := PFound (idx : N) | PEmpty (idx : N) | POob (idx : N) | PFuel.
 
-(* the probing loop shared by emplace and get: stops at the first slot that is NULL or holds [id].
-   (getDDict stops on "dictID == id or dictID == 0 (NULL entry)"; for id <> 0 and for a table without a
-   dictID-0 entry that is the same loop; a dictID-0 DDict stops it early exactly like an empty slot: see [get].) *)
+(* the probing loop of ZSTD_DDictHashSet_emplaceDDict: stops at the first slot that is NULL or holds [id] *)
 Fixpoint probe (next : N -> N) (fuel : nat) (tab : list (option entry)) (id idx : N) : probe_res :=
   match fuel with
   | O => PFuel
@@ -103,9 +101,22 @@ Definition add (h : N -> N) (next : N -> N -> N) (s : hset) (e : entry) : hres h
        end
   else emplace h next s e.
 
-(* ZSTD_DDictHashSet_getDDict (returns the entry or NULL) *)
+(* the probing loop of ZSTD_DDictHashSet_getDDict: stops on "currDictID == dictID || currDictID == 0".
+   ZSTD_getDictID_fromDDict(NULL) is 0, so an empty slot stops it - and so does a stored DDict whose own
+   dictID is 0 (a raw-content dictionary), whatever dictID is searched. *)
+Fixpoint probe_get (next : N -> N) (fuel : nat) (tab : list (option entry)) (id idx : N) : probe_res :=
+  match fuel with
+  | O => PFuel
+  | S f => match tget tab (N.to_nat idx) with
+           | None => POob idx
+           | Some None => PEmpty idx
+           | Some (Some (i, _)) => if orb (i =? id) (i =? 0) then PFound idx else probe_get next f tab id (next idx)
+           end
+  end.
+
+(* ZSTD_DDictHashSet_getDDict (returns the entry of the slot where the loop stopped, or NULL) *)
 Definition get (h : N -> N) (next : N -> N -> N) (s : hset) (id : N) : hres (option entry) :=
-  match probe (next (hs_size s - 1)) (N.to_nat (hs_size s)) (hs_tab s) id (get_index h (hs_size s) id) with
+  match probe_get (next (hs_size s - 1)) (N.to_nat (hs_size s)) (hs_tab s) id (get_index h (hs_size s) id) with
   | PFound i => HOk (match tget (hs_tab s) (N.to_nat i) with Some e => e | None => None end)
   | PEmpty _ => HOk None
   | POob i => HOobRead i
